@@ -595,6 +595,12 @@ def with_mc3(pid, f):
         n = round3b.mc3(proj, rep, MC3_SCOPE[pid] if tier == 'quick' else None)
         if tier != 'quick':
             rep.floor('MC3 memoised functions of the package (reviewed set)', n, 20)
+        # PU1 over the modules of the property (package-wide in the thorough tier); the properties that already run it keep their own floors
+        scope = [q for q in sorted(proj.modules) if any(q == x or q.startswith(x + '.') for x in MC3_SCOPE[pid])] if tier == 'quick' else sorted(proj.modules)
+        if pid not in ('C03', 'C11'):
+            n = ownership.pu1(proj, rep, scope)
+            if tier != 'quick':
+                rep.floor('PU1 functions with in-place stores in the package', n, 80)
     return g
 
 
